@@ -414,6 +414,8 @@ func (p *Path) call(caller *frame, pos token.Pos, fn value, args []value) value 
 		return p.callBuiltin(caller, pos, fn, args)
 	case *nativeFunc:
 		return fn.fn(p, caller, args)
+	case *boundFn:
+		return p.call(caller, pos, fn.fn, append([]value{fn.recv}, args...))
 	}
 	panic(fmt.Sprintf("cannot call %T", fn))
 }
@@ -500,7 +502,16 @@ func (fr *frame) runFrame() {
 			fr.panic = r
 			fr.runDefers()
 			fr.block = fr.fn.Recover
-		case unsupported, pathEnd:
+		case unsupported:
+			if !strings.Contains(r.msg, " [in ") {
+				var chain []string
+				for f := fr; f != nil && len(chain) < 6; f = f.caller {
+					chain = append(chain, f.fn.String())
+				}
+				r.msg += " [in " + strings.Join(chain, " <- ") + "]"
+			}
+			panic(r)
+		case pathEnd:
 			panic(r)
 		case runtime.Error:
 			buf := make([]byte, 4096)
